@@ -65,7 +65,7 @@ PROPS = {
                 rule="per basis position and per window position: window values {0,1,2^(w-1)-1,2^(w-1),2^(w-1)+1,2^w-2,2^w-1} x carry-in {0,1}; all-ones carry chains; r-1, r-2, powers of two; single hot coefficient at the basis positions; short vectors; dense random; linearity/update triples; audit of precomputed table entries against (j+1)2^(wk)G_i."),
     "C06": dict(ties=['Formulas', 'Elements', 'SqrtChain', 'GoIpa.Props.C06Exact'], level="proof",
                 rule="byte strings of every length 0..70 (compressed) / 0..130 (uncompressed); random x classified independently (valid / on-curve non-subgroup / off-curve) each with its x+p alias and -x; uncompressed: both signs of y, x+p, y+p, wrong y, trailing byte; boundary values 0,1,p-1,p,p+1,2^256-1."),
-    "C07": dict(ties=['Formulas', 'Elements', 'GoIpa.Props.C07Concrete'], level="proof",
+    "C07": dict(ties=['Formulas', 'Elements', 'BatchNormalize', 'GoIpa.Props.C07Concrete'], level="proof",
                 rule="elements reached by random histories (Add, Sub, Double, Neg, ScalarMul, AddMixed, Set, Normalize, MSM both engines, decode) in representations Z=1 / rescaled / sign-flipped, including the all-zero value; Bytes, Equal matrix over all pairs, decode(Bytes)."),
     "C08": dict(ties=['Formulas', 'Elements', 'GoIpa.Lemmas.EdwardsAssoc', 'GoIpa.Props.C08Group', 'GoIpa.Props.C08Order', 'GoIpa.Props.C08Concrete'], level="proof",
                 rule="random group histories plus explicit law instances ((s+t)P, s(P+Q), 0*P, (r-1)P+P, P-P, P+O, -P) with special scalars; every operation also executed with the receiver aliasing each operand; all representations; identity-class operands of ScalarMul."),
@@ -98,7 +98,7 @@ PROPS = {
                 rule="0,1,2,4,5,7,p-1,p-2,-5,d; every 2^k-th root of unity (k=0..32) and products with odd-order elements; every 8-bit value in each of the four discrete-log blocks with the other blocks zero/random/odd/even; random squares and non-squares in equal share; point recovery for random x with both sign requests."),
     "C18": dict(ties=['Loops', 'Consts', 'GoIpa.Lemmas.DivideOnDomain'], level="proof", modes=[{"name": "default"}, {"name": "cpu3", "prefix": taskset(3)}, {"name": "cpu7-procs5", "prefix": taskset(7), "env": {"GOMAXPROCS": "5"}}],
                 rule="both precomputed tables (512+510 entries); f in {random, unit vectors, constant, r-1, zero, X^255}; z in {256,257,r-1,2^200,random}: inner product with barycentric coefficients against direct Lagrange evaluation; DivideOnDomain for all 256 indices against the model and the defining relation q_i (i-k) = f_i - f_k."),
-    "C19": dict(ties=['Elements'], level="proof", race=True, modes=[{"name": "default"}, {"name": "conc16", "args": ["-conc", "16"], "workers": 1, "filter": "^batch ", "env": {"VERIF_BATCH_REPEAT": "40"}}],
+    "C19": dict(ties=['Elements', 'BatchNormalize'], level="proof", race=True, modes=[{"name": "default"}, {"name": "conc16", "args": ["-conc", "16"], "workers": 1, "filter": "^batch ", "env": {"VERIF_BATCH_REPEAT": "40"}}],
                 rule="element lists of length 0..310 from random histories with repeated pointers (alias), mixed normalised/projective/sign-flipped, identity included: batch serialisers, BatchMapToScalarField, BatchNormalize vs single-element results from the model; one un-normalisable element (Z=0) at each position must fail with nothing modified."),
     "C20": dict(ties=['Execute'], level="proof", exhaustive=False,
                 rule="(n, m) pairs: quick = full box n<=160 x m<=40 plus multiples of m +-1 up to 2048 and random pairs; thorough = exhaustive box n in 0..2048 x m in 1..300; one case in 17 sleeps inside work and the completion counter is read right after Execute returns.",
